@@ -10,6 +10,7 @@ CONSTANTS
  KF_GuardOnVisibleOnly = FALSE
 KF_SurvivorsOnly = FALSE
 KF_RetryUnguarded = FALSE
+KF_CloneSwap = FALSE
 MaxRetry = 2
 PROPERTIES C08_Opens
 CHECK_DEADLOCK FALSE
